@@ -108,6 +108,14 @@ fn local_zones(cfg: usize, hints: &FlatZone) -> Vec<FlatZone> {
             // data for names owned by the authoritative zones: must never be used
             rec("www.a.ex.", a([10, 8, 8, 8]), 5),
             rec("nope.a.ex.", a([10, 8, 8, 7]), 5),
+            // a stub-zone hint (NS + glue at a non-apex name of the
+            // non-authoritative zone) with hosts entries beneath it
+            rec("stub.example.", ns(&dn("ns1.stub.example.")), 5),
+            rec("ns1.stub.example.", a([10, 0, 8, 1]), 5),
+            rec("wiki.stub.example.", a([10, 3, 0, 5]), 5),
+            rec("wiki.stub.example.", a([10, 3, 0, 6]), 5),
+            // ... and one at the very name that carries the NS records
+            rec("stub.example.", a([10, 3, 0, 7]), 5),
         ]);
     }
     v.push(root);
@@ -133,6 +141,8 @@ fn cache_menu() -> Vec<ResourceRecord> {
         // another type (left by an earlier question for a type it does not hold)
         rr(&dn("host.override."), cname(&dn("evil.k.")), 300),
         rr(&dn("ads.example."), cname(&dn("tracker.k.")), 300),
+        // a cached record for a hosts entry that sits beneath a stub-zone hint
+        rr(&dn("wiki.stub.example."), a([6, 6, 6, 8]), 300),
     ]
 }
 
@@ -141,6 +151,7 @@ fn question_names() -> Vec<DomainName> {
         "www.a.ex.", "alias.a.ex.", "alias2.a.ex.", "alias3.a.ex.", "alias4.a.ex.", "nope.a.ex.", "ent.a.ex.",
         "q.wild.a.ex.", "below.deleg.a.ex.", "deleg.a.ex.", "a.ex.", "www.sub.a.ex.", "nope.sub.a.ex.",
         "host.override.", "ads.example.", "other.override.", "x.wildna.", "up.ex.", "nope.ex.", "ext.k.", "ext2.k.",
+        "wiki.stub.example.", "other.stub.example.", "ns1.stub.example.", "stub.example.",
     ]
     .iter()
     .map(|s| dn(s))
@@ -198,7 +209,14 @@ fn upstream() -> Arc<Universe> {
             rec("host.override.", txt(b"upstream"), 300),
             rec("other.override.", a([7, 7, 8, 2]), 300),
         ]),
-        mk("example.", vec![rec("ads.example.", a([7, 7, 9, 1]), 300), rec("ads.example.", txt(b"ads"), 300)]),
+        mk("example.", vec![
+            rec("ads.example.", a([7, 7, 9, 1]), 300),
+            rec("ads.example.", txt(b"ads"), 300),
+            rec("wiki.stub.example.", a([7, 7, 9, 3]), 300),
+            rec("wiki.stub.example.", txt(b"wiki"), 300),
+            rec("other.stub.example.", a([7, 7, 9, 4]), 300),
+            rec("stub.example.", a([7, 7, 9, 5]), 300),
+        ]),
         mk("wildna.", vec![rec("x.wildna.", a([7, 7, 9, 2]), 300)]),
     ];
     for z in zones {
@@ -329,9 +347,23 @@ fn judge(zones: &[FlatZone], q: &Question, res: &RunResult) -> Vec<(&'static str
     } else if z.soa.is_none() {
         // (b) non-authoritative zone / hosts data
         let all = z.all();
-        let held: Vec<ResourceRecord> = match z.resolve_with(&all, &q.name, QueryType::Wildcard) {
-            Some(RefResult::Answer(rrs)) => rrs,
-            _ => Vec::new(),
+        // records the zone holds at the very name count whatever NS records
+        // (stub-zone hints) sit above them; otherwise what a lookup synthesises
+        let direct: Vec<ResourceRecord> = z
+            .recs
+            .iter()
+            .filter(|r| !r.wildcard && r.owner == q.name && r.data.rtype() != RecordType::NS)
+            .map(|r| rr(&r.owner, r.data.clone(), r.ttl))
+            .collect();
+        let has_ns_here = z.recs.iter().any(|r| !r.wildcard && r.owner == q.name && r.data.rtype() == RecordType::NS);
+        let _ = has_ns_here;
+        let held: Vec<ResourceRecord> = if !direct.is_empty() {
+            direct
+        } else {
+            match z.resolve_with(&all, &q.name, QueryType::Wildcard) {
+                Some(RefResult::Answer(rrs)) => rrs,
+                _ => Vec::new(),
+            }
         };
         let rrs = outcome_rrs(outcome);
         let types: BTreeSet<RecordType> = held.iter().map(|r| r.rtype_with_data.rtype()).collect();
@@ -383,6 +415,32 @@ fn judge(zones: &[FlatZone], q: &Question, res: &RunResult) -> Vec<(&'static str
         }
     }
     out
+}
+
+pub const SLUG_NS_OWNER: &str = "local-record-at-ns-owner";
+
+/// Known finding (KNOWN_FINDINGS.txt): in a non-authoritative zone a name that
+/// carries NS records *and* records of the asked type is treated as a
+/// delegation, which `resolve_local` ignores for such zones, so the local
+/// records are passed over for the cache / upstream.  Narrow predicate: the
+/// question name itself owns both, the type asked is one the zone holds
+/// there, and the clause is one of the two that state the override.
+fn known_slug(zones: &[FlatZone], q: &Question, clause: &str) -> Option<&'static str> {
+    if clause != "override-not-exact" && clause != "upstream-contacted" {
+        return None;
+    }
+    let z = most_specific(zones, &q.name)?;
+    if z.soa.is_some() || q.name == z.apex {
+        return None;
+    }
+    let at = |pred: &dyn Fn(RecordType) -> bool| z.recs.iter().any(|r| !r.wildcard && r.owner == q.name && pred(r.data.rtype()));
+    let ns_here = at(&|t| t == RecordType::NS);
+    let asked_here = at(&|t| t != RecordType::NS && t.matches(q.qtype));
+    if ns_here && asked_here && q.qtype != QueryType::Record(RecordType::NS) {
+        Some(SLUG_NS_OWNER)
+    } else {
+        None
+    }
 }
 
 fn case_json(cfg: usize, cache: &[usize], q: &Question, mode: ModeK, choices: &[usize]) -> Value {
@@ -494,7 +552,7 @@ fn run_item(tier: Tier, i: usize, acc: &mut JsonAcc) {
                                 show_outcome(&res.asks[0].outcome)
                             ),
                             case_json(cfg, cache, &q, mode, choices),
-                            None,
+                            known_slug(&zones, &q, clause),
                         );
                     }
                     if cache.len() == 2 && mode == ModeK::Recursive && !res.log.is_empty() {
@@ -519,7 +577,7 @@ const N_CONFIGS: usize = 8;
 
 pub fn run(ctx: &Ctx) -> i32 {
     let n = N_CONFIGS * question_names().len();
-    let (acc, crashes) = procpar::parent(ctx, n, ctx.tier.pick(40.0, 570.0), &[]);
+    let (acc, crashes) = procpar::parent(ctx, n, ctx.tier.pick(40.0, 570.0), &[SLUG_NS_OWNER]);
     let mut report = Report::new();
     let c = |k: &str| acc.counters.get(k).copied().unwrap_or(0);
     report.evaluations = c("executions");
@@ -558,6 +616,13 @@ fn replay_inner(ctx: &Ctx, v: &Value) -> i32 {
     let findings = judge(&zones, &q, &res);
     for (c, m) in &findings {
         println!("  finding [{c}]: {m}");
+    }
+    let known = load_known(ctx.id);
+    let (listed, findings): (Vec<_>, Vec<_>) = findings
+        .into_iter()
+        .partition(|(c, _)| known_slug(&zones, &q, c).is_some_and(|s| known.contains_key(s)));
+    for (c, _) in &listed {
+        println!("KNOWN-FINDING: property={} slug={} clause={c} {}", ctx.id, SLUG_NS_OWNER, known[SLUG_NS_OWNER]);
     }
     if findings.is_empty() {
         println!("replay: property holds on this case");
